@@ -209,6 +209,31 @@ CLAIMED.update({
         design='§5 C17'),
 })
 
+CLAIMED.update({
+    'C12': dict(
+        text='Capstone: modelWrite composes the layer models; theorem write_sound (a successful write is read back by the '
+             'strict physical reader as exactly the specification\'s records), set_record_decodes / '
+             'noformat_record_decodes / C03 (each body decodes to what it was built from), and the rejects_* theorems '
+             '(over-long or non-ASCII IDENT/ASCII, integers outside a code\'s range, missing dataset, unequal row '
+             'counts are errors), empty_list_faithful. Tie: the malformed stream - valid specifications with one '
+             'injected defect from a catalogue of ~30, or a degenerate value - must raise or decode to the expectation.',
+        note='PARTIAL: which Python inputs are refused before the model applies (type checks, dtype validation, '
+             'completeness) is tied by the malformed stream only.',
+        technique='Lean 4 proof (composition of the layer round-trips + rejection lemmas) + malformed-input correspondence',
+        design='§5 C12'),
+    'C19': dict(
+        text='Effect/alias model of the data path: theorems no_caller_write_preserves (an effect list without a write to a '
+             'caller buffer leaves every caller buffer unchanged, also when aborted at any point), '
+             'pipeline_never_writes_caller (the modelled data path - all source kinds, no-copy path, casts, any number '
+             'of channels/rows - contains no such write), caller_data_unaltered. Tie: sha256 of every caller-owned '
+             'buffer (base buffers of views, read-only arrays, dict keys/values, HDF5 bytes) before/after real writes, '
+             'successful and failing.',
+        note='PARTIAL by nature: the effects of numpy/h5py operations are runtime behaviour outside the model; the theorem '
+             'is about the effect list, the checksums tie it to the code.',
+        technique='Lean 4 proof (effect-system invariant) + before/after checksum correspondence',
+        design='§5 C19'),
+})
+
 PENDING_REASON = 'check not built yet in this revision (model layer under construction); see DESIGN.md §12 build order'
 
 
